@@ -25,27 +25,27 @@ CLAIMS = {
  "C05": ("TLC model checking of Reopen.tla (instances x processes x sequence counter) and FsDb.tla with Close/Open at every position + replay in real OS processes",
          "Every script of open/close/write/delete/new-process over 1-2 database instances up to the stated length is enumerated by TLC and executed in fresh child processes over the same directories; in-process Close/Open is inserted at every position of transactional histories.", "6 C05"),
  "C06": ("controlled-scheduler executions of the real code (all schedules up to a preemption bound + seeded random) validated by TLC against LinTrace.tla: linearizability w.r.t. the L0 promise; deadlock = all actors blocked",
-         "Small concurrent client programs (2-4 clients, autocommit and RU/RC transactions, a collector actor, shared keys) run with every gate of fs_db as a scheduling point; TLC searches a linearisation of each recorded call/return history; a panic or an all-blocked state is a violation. Recorded defect: a read overtaken by cleanup returns ErrNotFound (known finding, recognised by its schedule).", "6 C06"),
+         "Small concurrent client programs (2-4 clients, autocommit and RU/RC transactions, a collector actor, shared keys) run with every gate of fs_db as a scheduling point; TLC searches a linearisation of each recorded call/return history; a panic or an all-blocked state is a violation. The same check judges free-running executions (ordinary goroutines, inline and through gRPC, contents up to 150 000 bytes, many overlapping reads). Recorded defect: a read overtaken by cleanup returns ErrNotFound (known finding, recognised by its schedule and its outcome).", "6 C06"),
  "C07": ("as C06, programs of 2-3 concurrently committing snapshot transactions with intersecting write sets (plus autocommit writers); the L0 conflict rule under linearisation decides first-committer-wins",
          "Every interleaving of the commit micro-steps (registry delete, conflict check, sequence draws, publication, unlink) up to the preemption bound is executed on the real code.", "6 C07"),
  "C08": ("as C06, programs of snapshot readers x multi-key committers x autocommit writers x collector; Begin of a snapshot transaction may linearise after its return (consistency and stability, not recency)",
-         "Reads of every snapshot transaction must be explained by one instant of the linearised commit order. Recorded defects: Begin between the publishing draws of a commit, Begin unregistered while the collector fixes its horizon (known findings, recognised by their schedules).", "6 C08"),
+         "Reads of every snapshot transaction must be explained by one instant of the linearised commit order. Recorded defects: Begin between the publishing draws of a commit, Begin unregistered while the collector fixes its horizon (known findings, recognised by their schedules and outcomes: a fractured but stable snapshot, a version lost to the collector; anything else under the same schedule is a violation).", "6 C08"),
  "C09": ("TLC action property GCInvisible + ReadableHasContent on FsDb.tla, replay of behaviours with the collector at every position; blame by ablation of the GC steps",
-         "The collector is enabled at every state of the bounded model; in the real code all reads of all open transactions are compared before/after and for the rest of the behaviour, and a disagreement that disappears when the GC steps are left out is attributed to the collector.", "6 C09"),
+         "The collector is enabled at every state of the bounded model; in the real code all reads of all open transactions are compared before/after and for the rest of the behaviour, and a disagreement that disappears when the GC steps are left out is attributed to the collector. A reader held open (ROpen/RFinish in the specification) across overwrites, ends of transactions and collections must deliver the content it began with.", "6 C09"),
  "C10": ("TLC invariants on SetRetry.tla (no-space continuation over roots: success is exact, continues where there is room) and Upload.tla (an aborted upload leaves no trace, nobody sees a prefix) + every emitted fault scenario executed on the real code (write-fault and free-space hooks; failing reader, cancelled context, cut connection through a proxy)",
          "Every combination of free-space ranks, fault position (each file write call) and kind (nothing written / half a chunk written) on 2-3 roots, and every position of reader error / cancellation / connection cut in uploads of several lengths, through inline Set/SetReader/Create and the gRPC client; afterwards an independent client reads the key.", "6 C10"),
  "C11": ("the L1 behaviours emitted by TLC are replayed through external.Open against the real gRPC server and through the inline client; a disagreement only the external run shows is a C11 violation",
-         "All behaviours of the C01/C02/C03/C13 families up to the stated depth are executed through both clients (contents across the 2048-byte chunk boundary, all four levels, late operations, server restarts) and compared step by step with the L0 promise by errors.Is classes and byte equality.", "6 C11"),
+         "All behaviours of the C01/C02/C03/C13 families up to the stated depth are executed through both clients (contents across the 2048-byte chunk boundary, all four levels, late operations, server restarts) and compared step by step with the L0 promise by errors.Is classes and byte equality. ErrMap.tla enumerates error values (sets of sentinels) through the server and client adapters in every wrapping shape; Upload.tla's early server verdicts (empty key, no space) must reach the caller whenever they arrive; Download.tla: a read over a cut connection or cancelled context ends with an error or with the whole content; a header-less upload is refused as ErrHeaderNotFound.", "6 C11"),
  "C12": ("TLC on AsyncRW.tla (one action per segment between two gates of read_writer.go; safety Concatenation, no stuck state, liveness CloseReturns) + every emitted schedule replayed step by step on the real readWriter + inline Create end to end under controlled schedules",
-         "All schedules of writer and storing goroutine for 16 write patterns (sizes 0..3, empty writes first/middle/last) x reader buffer sizes are enumerated by TLC and executed on the real pipe through its gates with zero drift; a hang is recognised from goroutine wait states (all actors blocked), never by time-out; Create with sizes 0, 1, 32 KiB +-1 runs under the scheduler and is linearised.", "6 C12"),
+         "All schedules of writer and storing goroutine for 16 write patterns (sizes 0..3, empty writes first/middle/last) x reader buffer sizes are enumerated by TLC and executed on the real pipe through its gates with zero drift; a hang is recognised from goroutine wait states (all actors blocked), never by time-out; Create with sizes 0, 1, 32 KiB +-1 runs under the scheduler and free (inline and gRPC) and is linearised.", "6 C12"),
  "C13": ("TLC action property LateIsIdentity on FsDb.tla with late operations enabled for every ended handle + replay with an RU observer and reopen",
-         "Every operation through ended handles is tried at every state of the bounded model; the real result classes and all other readers' reads are compared with the promise. The recorded defect (late writes accepted) is modelled as the named deviation 'latewrite'.", "6 C13"),
+         "Every operation through ended handles is tried at every state of the bounded model; the real result classes and all other readers' reads are compared with the promise. One stage runs through the gRPC client. The recorded defect (late writes accepted) is modelled as the named deviation 'latewrite'.", "6 C13"),
  "C14": ("TLC invariant Reclaimed on FsDb.tla + replay of behaviours ending in quiescence with a walk of the storage roots",
          "At every quiescent state (no open transaction, pool drained, one collector pass, or clean reopen) the real roots must hold exactly one content file per readable key.", "6 C14"),
  "C16": ("TLC safety (each job at most once, no panic, no start after Stop, Stop waits for jobs, no stranded job) and liveness on WPool.tla (effects silent, observations = gate arrivals); real pool executions under the controlled scheduler judged by counters and goroutine states and validated by TLC against WPoolTrace.tla; TLC counterexample schedules replayed",
          "Ten scenarios (deferred path with 1-2 workers, Stop against direct and deferred Sends, concurrent Stops, Stop/Run/Send, Send and Stop before Run, double Run) run under all schedules up to a preemption bound plus random ones; every recorded sequence of gate arrivals must be a behaviour of the specification with TLC placing the unobservable effects.", "6 C16"),
  "C17": ("TLC invariants on Dirs.tla (bounded counts, every root offers a directory, room is reused) with a limit of 2 + recorded walks of the storage roots of long random histories validated by TLC against DirsTrace.tla with the real limit",
-         "After every API call of histories with hundreds to thousands of writes/deletes/collections/reopenings over 1-3 roots the tree is walked; TLC decides which directories may be created and offered and infers the random choice of directory from the walk.", "6 C17"),
+         "After every API call of histories with hundreds to thousands of writes/deletes/collections/reopenings over 1-3 roots the tree is walked; TLC decides which directories may be created and offered and infers the random choice of directory from the walk. Roots are spelled cleanly or with redundant slashes, the limit is configured as 100 or below (clamped to 100), scripted waves make directories fill, drain and refill; a directory with room that is passed over by more than 30 k consecutive writes (k directories with room) is rejected as starved.", "6 C17"),
  "C18": ("TLC invariants on VersionList.tla (binary search transcribed branch for branch = declarative last-below; collect rule; mirror = list) + replay of every emitted behaviour on the real core.Transaction",
          "All behaviours of the list state machine (push/pop-front/pop-back/collect) to the stated depth, all 4096 increasing lists over a 12-element domain with all 14 probes, and simulated lists of hundreds to thousands of versions are executed on the real per-key store; results, list content, array mirror, Latest and LastBefore are compared.", "6 C18"),
  "C19": ("layout function in Record.tla, TLC-generated golden vectors and byte strings replayed through the real version-record repository; fixture directory of the pinned revision",
